@@ -159,6 +159,12 @@ def principal(ora, meta, wl):
         inside = (tm < 0) & (tp > 0)
     outside = np.isfinite(tp) & np.isfinite(tm) & ~inside
     cond = 64 * 2.220446049250313e-16 * (abs(meta['R']) + abs(pc)) / lam
+    # a ray that lands FAR outside the sphere (transverse aberration many radii) has both intersections a long way b back
+    # along the ray and close together (half-distance q): the discriminant b^2 - c cancels, t carries eps b^2/(2q)
+    with np.errstate(invalid='ignore', divide='ignore'):
+        b_, q_ = np.abs(tp + tm) / 2, np.abs(tp - tm) / 2
+        far = 64 * 2.220446049250313e-16 * b_ * b_ / (2 * np.maximum(q_, 1e-300)) / lam
+    meta['cond_outside'] = np.where(outside & np.isfinite(far), far, 0.0)
     return Wp, Wm, outside, cond
 
 
@@ -214,8 +220,9 @@ def check_case(case, rec):
         W_lib = np.asarray(W_lib, float)
         Wp, Wm, outside, cond = principal(ora, meta, wl)
         with np.errstate(invalid='ignore'):
-            ep = np.abs(Wp - W_lib) / (1e-6 + 1e-9 * np.abs(Wp) + cond)
-            em = np.abs(Wm - W_lib) / (1e-6 + 1e-9 * np.abs(Wm) + cond)
+            cr = cond + meta['cond_outside']
+            ep = np.abs(Wp - W_lib) / (1e-6 + 1e-9 * np.abs(Wp) + cr)
+            em = np.abs(Wm - W_lib) / (1e-6 + 1e-9 * np.abs(Wm) + cr)
         e = np.where(outside, np.fmin(ep, em), ep)
         if outside.any():
             rec.cls('rays-outside-reference-sphere-either-root-accepted')
